@@ -173,6 +173,68 @@ class OctreeCentroids(Scenario):
             return "ok"
 
 
+class GridVertical(Scenario):
+    """switching a grid to vertical after its centres were read: the centres follow (dip becomes 90)"""
+    pid = "C17"
+    builtins_for = ("geoh5py.objects.grid2d",)
+
+    def body(self, cx):
+        from geoh5py.workspace import Workspace
+        from geoh5py.objects import Grid2D
+        nu, nv = self.params["shape"]
+        ws = Workspace()
+        g = Grid2D.create(ws, origin=[0.0, 0.0, 0.0], u_cell_size=1.0, v_cell_size=1.0, u_count=nu, v_count=nv, dip=30.0)
+        patch.detach(ws, g)
+        with self.engine(cx) as X:
+            su, sv = cx.real("su"), cx.real("sv")
+            o = [cx.real(f"o{a}") for a in "xyz"]
+            g.u_cell_size, g.v_cell_size = su, sv
+            g.origin = list(o)
+            _ = g.centroids                      # warm cache at dip 30
+            g.vertical = True
+            cx.prove(g.dip == 90, "a vertical grid reports dip 90", "vertical")
+            ce = elems(g.centroids)
+            cd, sd = _cs(X, 90.0)
+            for i, j in itertools.product(range(nu), range(nv)):
+                idx = i + j * nu
+                u, v = (i + 0.5) * su, (j + 0.5) * sv
+                exp = (o[0] + u, o[1] + cd * v, o[2] + sd * v)
+                cx.prove(And([eq(ce[idx * 3 + a], exp[a]) for a in range(3)]),
+                         f"cell ({i},{j}) of the now vertical grid stands at dip 90", "grid centre formula")
+            return "ok"
+
+
+class PartsAfterRemoval(Scenario):
+    """part labels read, a segment removed, part labels read again: they agree with the new connectivity"""
+    pid = "C17"
+
+    def body(self, cx):
+        from geoh5py.workspace import Workspace
+        from geoh5py.objects import Curve
+        n = self.params["n"]
+        ws = Workspace()
+        cv = Curve.create(ws, vertices=real_np.c_[real_np.arange(n), real_np.zeros(n), real_np.zeros(n)].astype(float))
+        patch.detach(ws, cv)
+        with self.engine(cx) as X:
+            before = elems(cv.parts)
+            cx.prove(len(set(before)) == 1, "a chain is one part", "derived parts")
+            i = cx.int("i", 0, n - 1)
+            cv.remove_cells([i])
+            cells = elems(cv.cells)
+            de = elems(cv.parts)
+            m = shape(cv.cells)[0]
+            cx.prove(m == n - 2 and shape(cv.parts) == (n,), "one segment less, one label per vertex", "derived parts")
+            ii = int(i)
+            for q in range(n):
+                for t in range(q + 1, n):
+                    same_run = (q <= ii and t <= ii) or (q > ii and t > ii)
+                    used = (lambda v: any(cells[2 * r] == v or cells[2 * r + 1] == v for r in range(m)))
+                    if used(q) and used(t):
+                        cx.prove((de[q] == de[t]) == same_run, f"labels of vertices {q},{t} agree with the connectivity after the removal",
+                                 "derived parts agree with connectivity")
+            return "ok"
+
+
 class CurveParts(Scenario):
     """parts -> cells -> parts on a curve with n vertices and symbolic part labels"""
     pid = "C17"
@@ -228,9 +290,10 @@ def scenarios(tier, seed):
     if tier == "quick":
         S += [BlockCentroids(shape=(2, 3, 2)), BlockCentroids(shape=(1, 1, 1), origin=False),
               GridCentroids(shape=(3, 2)), GridCentroids(shape=(1, 1)),
-              OctreeCentroids(counts=(2, 2, 2)), OctreeCentroids(counts=(4, 2, 1)),
-              OctreeCentroids(counts=(2, 1, 2), origin=False), OctreeCentroids(counts=(4, 4, 4), ncell=3),
+              OctreeCentroids(counts=(4, 4, 4), ncell=3), GridVertical(shape=(2, 2)), PartsAfterRemoval(n=5),
               CurveParts(n=4, labels=3), CurveParts(n=3, labels=2)]
+        for cnt in itertools.product((1, 2, 4), repeat=3):       # every axis gets to be the strictly shortest one
+            S.append(OctreeCentroids(counts=cnt, origin=(sum(cnt) % 2 == 0)))
     else:
         for shp in ((2, 3, 2), (3, 3, 3), (1, 4, 2), (4, 1, 1)):
             S.append(BlockCentroids(shape=shp))
@@ -241,6 +304,7 @@ def scenarios(tier, seed):
             if max(cnt) / min(cnt) <= 4 or cnt in ((8, 1, 1), (1, 8, 2)):
                 S.append(OctreeCentroids(counts=cnt, origin=(sum(cnt) % 2 == 0)))
         S += [OctreeCentroids(counts=(4, 4, 4), ncell=4), OctreeCentroids(counts=(8, 4, 2), ncell=2, origin=False)]
+        S += [GridVertical(shape=(3, 2)), PartsAfterRemoval(n=6), PartsAfterRemoval(n=3)]
         S += [CurveParts(n=5, labels=3), CurveParts(n=4, labels=4), CurveParts(n=6, labels=2), CurveParts(n=2, labels=2)]
     return S
 
@@ -260,5 +324,6 @@ def main(tier, seed):
                  "grids/octrees larger than the bounds", "singleton parts when comparing derived labels (vertices in no segment)"],
         bounds={"quick": "block model 2x3x2, grid 3x2, octree counts (2,2,2),(4,2,1),(2,1,2) + 3 symbolic user cells, curves n<=4 with <=3 labels",
                 "thorough": "block models up to 3x3x3, grids up to 4x4, octree counts in {1,2,4,8}^3 (ratio<=4), curves n<=6"}[tier],
-        expected_outcomes={"BlockCentroids": {"ok"}, "GridCentroids": {"ok"}, "OctreeCentroids": {"ok"}, "CurveParts": {"ok"}},
+        expected_outcomes={"BlockCentroids": {"ok"}, "GridCentroids": {"ok"}, "OctreeCentroids": {"ok"}, "CurveParts": {"ok"}, "GridVertical": {"ok"},
+                           "PartsAfterRemoval": {"ok"}},
     )
